@@ -84,9 +84,12 @@ check("C01", "Lean 4 theorems over a hand model of the whole hkl->angles pipelin
       "Proved for ALL modes (C01.getPosition_guard): get_position returns a pair only if the position maps back to the requested hkl through get_hkl within 1e-3 per index and the "
       "dictionary is get_virtual_angles of that position; get_hkl IS the first-principles forward model (C04, on generated code), so the guard is a physical statement (guard_forward_model). "
       "Exactness: detector relation + sample relation + Bragg => forward model = hkl exactly (composition); the detector layer from qaz, used by the three-sample and reference+two-sample "
-      "branches, satisfies the detector relation exactly incl. its threshold shortcut (detFromQaz_sound). The model (Solver/*.lean, ~1200 lines mirroring calc*.py) is run against get_position on "
+      "branches, satisfies the detector relation exactly incl. its threshold shortcut (detFromQaz_sound). Sample layer exact (Props/C01Sample.lean): every tuple returned by each of the nine "
+      "detector+two-sample branches satisfies Z.h = q(theta, qaz) (twoSampleDetector_sound); each of the four detector+reference+one-sample branches satisfies the full orientation equation "
+      "Z.N_phi = N_lab (remainingSample_sound, Euler extraction; _calc_N generic branch is a proper rotation); all six reference+two-sample branches satisfy Z.N_phi.PSI^T.THETA^T = F(qaz) (twoSampleReference_sound); the four three-sample branches satisfy the sample relation for the qaz they compute (threeSample_sample_sound). The model (Solver/*.lean, ~1200 lines mirroring calc*.py) is run against get_position on "
       "all 185 modes (physical, special-value and degenerate requests); an independent numpy forward model checks every returned element, also inside call sequences.",
-      "Lean kernel; standard axioms; PARTIAL: exact soundness of the sample-layer branches is not proved (correspondence + oracle only); hand model tied by sampled correspondence; "
+      "Lean kernel; standard axioms; PARTIAL: the branch theorems hold on the generic branch (bound() not clipping, no coincident-root / gimbal-lock shortcut); the per-mode assembly of "
+      "the layer theorems is covered by correspondence + oracle only; hand model tied by sampled correspondence; "
       "numerically singular requests excluded from the model comparison (counted).",
       "DESIGN.md §6 C01")
 
